@@ -574,3 +574,16 @@ RULE_ADDENDA_2 = {
 }
 for _k, _t in RULE_ADDENDA_2.items():
     PROPS[_k]["rule"] += " " + _t
+
+
+# Round 6
+RULE_ADDENDA_3 = {
+    "C02": "Round 6: a stub naming an address on the attacker's own host that serves a forgery; an id-less actor behind the victim's redirect; every actor displayed with an identifier must be served under that id by its home (31 constructions in all).",
+    "C07": "Round 6: link-rich posts carry a link spelled like an existing handle (it opens nothing).",
+    "C10": "Round 6: pages of 17-76 items with requests of 17..100; collections and pages without ids; null entries in item lists; finite remote chains are walked a second time over the cached documents.",
+    "C15": "Round 6: long gemtext / plain-text pages (35-50 KB).",
+    "C19": "Round 6: one-line files without a line end, broken off inside a construct.",
+    "C20": "Round 6: the address expected for an attachment comes from its own JSON (credentials, query and fragment included); nameless attachments; subtypes of 127, 128 and 300 characters.",
+}
+for _k, _t in RULE_ADDENDA_3.items():
+    PROPS[_k]["rule"] += " " + _t
